@@ -3,7 +3,7 @@ import itertools
 import math
 
 from mcx import sched
-from mcx.common import (OPS, PRESENTATIONS, PRUNED_MEASURES, cell, classify, isna, levenshtein,
+from mcx.common import (OPS, PRESENTATIONS, PRUNED_MEASURES, cell, classify, isna, levenshtein, lib,
                         make_tokenizer, mkframe, sim_counts, ssj)
 from mcx.refmodel import PairJudge, masks_for
 from py_stringmatching.tokenizer.qgram_tokenizer import QgramTokenizer
@@ -55,7 +55,7 @@ def w_fpair_sets(job):
             for b in range(1, 1 << K):
                 o = (a & b).bit_count()
                 cls, _ = judge(pc[a], pc[b], o)
-                dropped = f.filter_pair(sa, strs[b])
+                dropped = lib(f.filter_pair, sa, strs[b])
                 calls += 1
                 if cls == 'must':
                     nontrivial += 1
@@ -115,7 +115,7 @@ def w_fpair_arith(job):
                 a, b = arith_strings(m, n, omin)
                 for nm, f in fs:
                     calls += 1
-                    if f.filter_pair(a, b):
+                    if lib(f.filter_pair, a, b):
                         nviol += 1
                         if len(viol) < job.get('maxv', MAXV):
                             viol.append({'key': '%s|arith|%s|%s|%r|%d,%d,%d' % (prop, nm, meas, t, m, n, omin),
@@ -156,7 +156,7 @@ def w_fpair_edit(job):
     for i, a in enumerate(S):
         for j, b in enumerate(S):
             must = lev(a, b) <= t and bool(grams[i] & grams[j])
-            dropped = f.filter_pair(a, b)
+            dropped = lib(f.filter_pair, a, b)
             calls += 1
             if must:
                 nontrivial += 1
@@ -184,8 +184,8 @@ def w_fpair_edit(job):
 
 def call_filter_tables(f, L, R, lo=None, ro=None, n_jobs=1, score=None, lp='l_', rp='r_'):
     if score is not None:       # OverlapFilter only
-        return f.filter_tables(L, R, 'id', 'id', 's', 's', lo, ro, lp, rp, score, n_jobs, False)
-    return f.filter_tables(L, R, 'id', 'id', 's', 's', lo, ro, lp, rp, n_jobs, False)
+        return lib(f.filter_tables, L, R, 'id', 'id', 's', 's', lo, ro, lp, rp, score, n_jobs, False)
+    return lib(f.filter_tables, L, R, 'id', 'id', 's', 's', lo, ro, lp, rp, n_jobs, False)
 
 
 def pairs_of(out, L, R):
@@ -240,7 +240,7 @@ def w_ftables(job):
         import pandas as pd
         cand = pd.DataFrame({'_id': list(range(len(cs))), 'l_id': [c[0] for c in cs],
                              'r_id': [c[1] for c in cs]})
-        oc = f.filter_candset(cand, 'l_id', 'r_id', L, R, 'id', 'id', 's', 's', n_jobs, False)
+        oc = lib(f.filter_candset, cand, 'l_id', 'r_id', L, R, 'id', 'id', 's', 's', n_jobs, False)
         calls += 1
         results.append(('filter_candset', pairs_of(oc.drop(columns=['_id']), L, R)))
     cnt = {'must-kept': 0, 'must-dropped': 0, 'kept-rows': 0}
